@@ -82,10 +82,13 @@ Section Order.
       In c (trace_of debug p n) ->
       c_step c < n /\
       exists ms m, get p (c_group c) = Some ms /\ nth_error ms (c_pos c) = Some m /\
-                   enabled m = true /\ c_name c = name m /\ c_args c = args m.
+                   enabled m = true /\ c_name c = name m /\ c_args c = recv (c_step c) m /\
+                   (grows m = false -> c_args c = args m).
   Proof.
     intros debug p n c H. unfold trace_of in H. rewrite run_readouts_fst in H.
-    apply in_tr_readouts in H. tauto.
+    apply in_tr_readouts in H. destruct H as (H1 & _ & ms & m & A & B & C & D & E).
+    split; [exact H1|]. exists ms, m. repeat split; auto.
+    intro G. rewrite E. unfold recv. rewrite G. reflexivity.
   Qed.
 
   Lemma run_debug_irrelevant :
@@ -116,31 +119,18 @@ Proof.
   destruct debug; simpl; [rewrite captures_on|rewrite captures_off]; reflexivity.
 Qed.
 
-(* the run-level outcome of an exposure with debug capture: faithful to the code, it fails when no
-   model at all executes; otherwise it is the run without debug plus one capture per call *)
-Lemma exposure_off_runs order p n :
-  exposure_result false order p n = Ok (run_readouts false order p n).
-Proof. reflexivity. Qed.
-
+(* the run-level outcome of an exposure: it always completes, makes the calls of the run without
+   debug, and with debug on holds one capture per call (none when no model executes) *)
 Lemma captures_of_nil t : is_nil (captures_of t) = is_nil t.
 Proof. destruct t; reflexivity. Qed.
 
-Lemma exposure_debug_partial order p n :
-  trace_of order false p n <> [] ->
-  exists r, exposure_result true order p n = Ok r /\
-            fst r = trace_of order false p n /\ snd r = captures_of (trace_of order false p n).
+Lemma exposure_runs order p n debug :
+  exposure_result debug order p n =
+  Ok (trace_of order false p n, if debug then captures_of (trace_of order false p n) else []).
 Proof.
-  intro H. exists (run_readouts true order p n). unfold exposure_result, trace_of in *.
-  rewrite run_readouts_fst in H. rewrite captures_on, captures_of_nil. rewrite !run_readouts_fst.
-  destruct (tr_readouts order p n) eqn:E; [contradiction H; reflexivity|]. simpl.
-  repeat split; reflexivity.
-Qed.
-
-Lemma exposure_debug_empty order p n :
-  trace_of order false p n = [] -> exposure_result true order p n = Raise "RuntimeError".
-Proof.
-  intro H. unfold exposure_result, trace_of in *. rewrite captures_on, captures_of_nil.
-  rewrite run_readouts_fst in H. rewrite H. reflexivity.
+  unfold exposure_result, trace_of. rewrite !run_readouts_fst. destruct debug; [|reflexivity].
+  rewrite captures_on. unfold intermediate_of.
+  destruct (tr_readouts order p n) eqn:E; reflexivity.
 Qed.
 
 Lemma yaml_trace_irrelevant order (d d' : doc) p p' debug n :
